@@ -143,12 +143,12 @@ Proof.
 Qed.
 
 (* --- slot usage *)
-Lemma usage_ok : forallb (row_ok slot_maps) usage_rows && usage_complete usage_rows = true.
+Lemma usage_ok : forallb (row_ok) usage_rows && usage_complete usage_rows = true.
 Proof. vm_compute. reflexivity. Qed.
 
 Theorem methods_use_documented_slots : forall u d, In u usage_rows ->
   doc_layout (u_plat u) (u_meth u) (u_variant u) = Some d ->
-  fields_ok slot_maps u d = true /\ (known_gids_type (u_plat u) (u_meth u) = false -> type_ok u d = true).
+  fields_ok u d = true /\ (known_gids_type (u_plat u) (u_meth u) = false -> type_ok u d = true).
 Proof.
   intros u d Hin Hd. pose proof usage_ok as H. apply andb_true_iff in H as [H _].
   pose proof (proj1 (forallb_forall _ _) H u Hin) as Hu. unfold row_ok in Hu. rewrite Hd in Hu.
@@ -157,7 +157,7 @@ Proof.
 Qed.
 
 Theorem methods_depend_on_documented_slot : forall u, In u usage_rows ->
-  known_terminal (u_plat u) (u_meth u) = false -> deps_ok slot_maps u = true.
+  known_terminal (u_plat u) (u_meth u) = false -> deps_ok u = true.
 Proof.
   intros u Hin Hk. pose proof usage_ok as H. apply andb_true_iff in H as [H _].
   pose proof (proj1 (forallb_forall _ _) H u Hin) as Hu. unfold row_ok in Hu.
@@ -176,7 +176,7 @@ Proof. vm_compute. reflexivity. Qed.
 
 Definition gids_type_bad (u : urow) : bool :=
   String.eqb (u_meth u) "gids" &&
-  match doc_layout (u_plat u) (u_meth u) (u_variant u) with Some d => fields_ok slot_maps u d && negb (type_ok u d) | None => false end.
+  match doc_layout (u_plat u) (u_meth u) (u_variant u) with Some d => fields_ok u d && negb (type_ok u d) | None => false end.
 Theorem gids_type_refuted : forall p, In p [MacOS; SunOS; AIX] ->
   exists u, In u usage_rows /\ u_plat u = p /\ u_meth u = "gids"%string /\ u_type u = "puids"%string /\ gids_type_bad u = true.
 Proof.
@@ -194,9 +194,9 @@ Proof.
 Qed.
 
 Theorem sunos_terminal_refuted :
-  exists u, In u usage_rows /\ u_plat u = SunOS /\ u_meth u = "terminal"%string /\ deps_ok slot_maps u = false.
+  exists u, In u usage_rows /\ u_plat u = SunOS /\ u_meth u = "terminal"%string /\ deps_ok u = false.
 Proof.
-  destruct (find (fun u => plat_eqb (u_plat u) SunOS && String.eqb (u_meth u) "terminal" && negb (deps_ok slot_maps u)) usage_rows)
+  destruct (find (fun u => plat_eqb (u_plat u) SunOS && String.eqb (u_meth u) "terminal" && negb (deps_ok u)) usage_rows)
     as [u|] eqn:E; [| vm_compute in E; discriminate].
   apply find_some in E as [Hin Hb]. apply andb_true_iff in Hb as [Hb Hd]. apply andb_true_iff in Hb as [Hp Hm].
   exists u. repeat split; auto.
